@@ -41,6 +41,7 @@ def handle (line : String) : String :=
   | ["DFILE", lines] => DecodeLine.handleDFILE lines
   | ["DNUM", kind, s] => DecodeLine.handleDNUM kind s
   | ["DROUTE", lines] => DecodeLine.handleDROUTE lines
+  | ["DBYTES", b] => DecodeLine.handleDBYTES b
   | ["COL", total, xs] => Decode.handleCol total xs
   | ["C2P", total] => Decode.handleC2P total
   | ["C2PSET", total, xs] => Decode.handleC2PSet total xs
